@@ -25,7 +25,7 @@ class Gen:
             return r.choice(pool)
         inner = NOVAR if pool is LEAVES else pool
         p = lambda pl=pool, nf=nofn: self.prog(d - 1, pl, nf)
-        kinds = ["if", "if2", "if3", "for", "forv", "while", "lam", "lam2", "list", "list2", "brk", "cont"]
+        kinds = ["if", "if2", "if3", "if3n", "if5n", "for", "forv", "while", "lam", "lam2", "list", "list2", "brk", "cont"]
         if pool is not PURE:
             kinds += ["map", "filt", "sort", "lamret", "fixed", "fixed"]
             if not nofn:  # a definition inside a function body is a Python-local name (undocumented scoping): outside the claim
@@ -38,6 +38,10 @@ class Gen:
             return c + "[" + p() + "|" + p() + "]"
         if k == "if3":
             return c + "[" + p() + "|" + c + "|" + p() + "|" + p() + "]"
+        if k == "if3n":
+            return c + "[" + p() + "|" + c + "|" + p() + "]"
+        if k == "if5n":
+            return c + "[" + p() + "|" + c + "|" + p() + "|" + c + "|" + p() + "]"
         if k == "for":
             return c + "ȧ(" + p() + ")" if pool is PURE else "?(" + p() + ")"
         if k == "forv":
